@@ -16,7 +16,7 @@ ENGINES = {
 PROPS = {
     "C20": dict(engines=["ring"], props_file="Props/C20.v", checkers=["Oracles/RingCheck.v"], coq_scan=["Events", "Oracles/RingCheck.v", "Props/C20.v"], level="proof",
                 manifest=dict(category="proof", text="Coq theorems: the ring-buffer model refines the abstract history specification (gap-free id range, most recent events retained across resizes) for every sequence of add/resize/query operations; store batch bound; stream bridging proved exact outside the recorded window and refuted inside it; model tied to the Go code by a correspondence run on every invocation", note="theorems are about the hand-written Gallina model (coq/Events); tie to the code is differential (harness generators over op sequences, stream interleavings placed through the build-tagged yield hook); kernel + vm_compute trusted", technique="Coq refinement proof + model/implementation correspondence"),
-                assumptions=["event ids stay below 2^64", "ring capacities and resize targets are positive (the event system substitutes the default for 0)"]),
+                assumptions=["event ids stay below 2^64", "ring capacities and resize targets are positive (the event system substitutes the default for 0) and at most MaxInt64 (make() panics above; head+capacity wraps above 2^63)", "event store sizes below 2^64"]),
 }
 
 
